@@ -195,8 +195,9 @@ func (e *Engine) callFunction(st *State, fn *ssa.Function, args []Value, binding
 		fn = m
 		name = shortFn(fn)
 	} else if o := fn.Origin(); o != nil {
-		if m, ok := e.W.Models[shortFn(o)]; ok && e.modelInScope(shortFn(o)) {
-			e.trust("model " + shortFn(m) + " stands for " + shortFn(o))
+		key := stripTypeArgs(shortFn(o))
+		if m, ok := e.W.Models[key]; ok && e.modelInScope(key) {
+			e.trust("model " + shortFn(m) + " stands for " + key)
 			fn = m
 			name = shortFn(fn)
 		}
@@ -206,7 +207,7 @@ func (e *Engine) callFunction(st *State, fn *ssa.Function, args []Value, binding
 		return r, out
 	}
 	// 4. contract in use-mode
-	if ct, ok := e.W.Contracts[name]; ok && ct.UseAtCalls && !e.verifyingTarget(name) && !e.inWrapperOf(name) {
+	if ct, ok := e.W.Contracts[name]; ok && ct.UseAtCalls && !e.harness.Real[name] && !e.inWrapperOf(name) {
 		return e.useContract(st, ct, fn, args, pos)
 	}
 	if e.inWrapperOf(name) && e.curCtr().mode == modeUse {
@@ -841,4 +842,21 @@ func (e *Engine) modelInScope(target string) bool {
 		p = e.harness.Fn.Origin().Package()
 	}
 	return p == nil || e.W.ModelPkg[target] == "" || e.W.ModelPkg[target] == p.Pkg.Path()
+}
+
+// stripTypeArgs removes [...] type argument / parameter lists from a function name.
+func stripTypeArgs(s string) string {
+	var sb strings.Builder
+	depth := 0
+	for _, r := range s {
+		switch {
+		case r == '[':
+			depth++
+		case r == ']':
+			depth--
+		case depth == 0:
+			sb.WriteRune(r)
+		}
+	}
+	return sb.String()
 }
